@@ -532,3 +532,258 @@ Section Auth.
     rewrite H. reflexivity.
   Qed.
 End Auth.
+
+(* ====================================================================== *)
+(* Registrations mirrored in nodes-by-entity and in the stake claims, for
+   either SetNode order; a node's entity never changes.                    *)
+(* ====================================================================== *)
+
+(* [l] holds exactly the pairs (entity of n, f (id of n)) for registered n *)
+Definition PF_ok (f : N -> N) (nodes : list (N * node)) (l : list (N * N)) : Prop :=
+  forall e id, pmem (e, f id) l = true <-> exists n, aget id nodes = Some n /\ n_ent n = e.
+(* the entity claim (code 0) is held exactly by the registered entities *)
+Definition EC_ok (ents : list (N * entity)) (l : list (N * N)) : Prop :=
+  forall e, pmem (e, 0) l = true <-> exists ent, aget e ents = Some ent.
+
+Lemma pf_set f nodes l n :
+  (forall a b, f a = f b -> a = b) -> PF_ok f nodes l ->
+  (forall old, aget (n_id n) nodes = Some old -> n_ent old = n_ent n) ->
+  PF_ok f (aset (n_id n) n nodes) (padd (n_ent n, f (n_id n)) l).
+Proof.
+  intros Hinj Hbe Hold e id'. rewrite pmem_padd. split.
+  - intros [H|H].
+    + injection H as -> H. apply Hinj in H. subst id'. exists n. rewrite aget_aset_same. auto.
+    + apply Hbe in H as [m [Hm He]]. rewrite aget_aset_gen.
+      destruct (N.eqb_spec (n_id n) id') as [E|Hne].
+      * exists n. split; [reflexivity|]. rewrite <- E in Hm. rewrite <- (Hold _ Hm). exact He.
+      * exists m. auto.
+  - intros [m [Hm He]]. split_in Hm (n_id n) id'.
+    + injection Hm as <-. left. congruence.
+    + right. apply Hbe. eauto.
+Qed.
+
+Lemma pf_remove f nodes l n id :
+  (forall a b, f a = f b -> a = b) -> IDS nodes -> PF_ok f nodes l -> aget id nodes = Some n ->
+  PF_ok f (adel id nodes) (pdel (n_ent n, f (n_id n)) l).
+Proof.
+  intros Hinj Hids Hbe Hn e id'. rewrite pmem_pdel. pose proof (Hids _ _ Hn) as Hid. split.
+  - intros [Hne H]. apply Hbe in H as [m [Hm He]]. exists m. split; [|exact He].
+    rewrite aget_adel_gen. destruct (N.eqb_spec id id') as [E|Hne']; [|exact Hm].
+    exfalso. apply Hne. rewrite <- E, Hn in Hm. injection Hm as <-. congruence.
+  - intros [m [Hm He]]. split_in Hm id id'; [discriminate|]. split.
+    + intros H. injection H as _ H. apply Hinj in H. congruence.
+    + apply Hbe. eauto.
+Qed.
+
+Lemma pf_other_add f nodes l e0 c :
+  (forall id, c <> f id) -> PF_ok f nodes l -> PF_ok f nodes (padd (e0, c) l).
+Proof.
+  intros Hc H e id. rewrite pmem_padd, <- (H e id). split; [|tauto].
+  intros [E|E]; [|exact E]. injection E as _ E. exfalso. apply (Hc id). congruence.
+Qed.
+Lemma pf_other_del f nodes l e0 c :
+  (forall id, c <> f id) -> PF_ok f nodes l -> PF_ok f nodes (pdel (e0, c) l).
+Proof.
+  intros Hc H e id. rewrite pmem_pdel, <- (H e id). split; [tauto|].
+  intros E. split; [|exact E]. intros E'. injection E' as _ E'. apply (Hc id). congruence.
+Qed.
+
+Lemma ec_set ents l e : EC_ok ents l -> EC_ok (aset (e_id e) e ents) (padd (e_id e, 0) l).
+Proof.
+  intros H e'. rewrite pmem_padd, aget_aset_gen, (H e').
+  destruct (N.eqb_spec (e_id e) e') as [E|Hne].
+  - split; [eauto|]. intros _. left. congruence.
+  - split; [|tauto]. intros [E|E]; [congruence|exact E].
+Qed.
+Lemma ec_del ents l x : EC_ok ents l -> EC_ok (adel x ents) (pdel (x, 0) l).
+Proof.
+  intros H e'. rewrite pmem_pdel, aget_adel_gen, (H e').
+  destruct (N.eqb_spec x e') as [E|Hne].
+  - split; [|intros [ent Hent]; discriminate]. intros [Hn _]. exfalso. apply Hn. congruence.
+  - split; [tauto|]. intros E. split; [congruence|exact E].
+Qed.
+Lemma ec_other_add ents l e0 c : c <> 0 -> EC_ok ents l -> EC_ok ents (padd (e0, c) l).
+Proof.
+  intros Hc H e. rewrite pmem_padd, <- (H e). split; [|tauto].
+  intros [E|E]; [congruence|exact E].
+Qed.
+Lemma ec_other_del ents l e0 c : c <> 0 -> EC_ok ents l -> EC_ok ents (pdel (e0, c) l).
+Proof.
+  intros Hc H e. rewrite pmem_pdel, <- (H e). split; [tauto|].
+  intros E. split; [congruence|exact E].
+Qed.
+
+Definition Inv_reg (s : state) : Prop :=
+  IDS (s_nodes s) /\
+  PF_ok (fun x => x) (s_nodes s) (s_byent s) /\
+  PF_ok (fun x => x + 1) (s_nodes s) (s_claims s) /\
+  EC_ok (s_ents s) (s_claims s).
+
+Lemma Inv_reg_st0 : Inv_reg st0.
+Proof.
+  unfold Inv_reg, IDS, PF_ok, EC_ok, st0; cbn. repeat split; try discriminate.
+  all: intros [n H]; first [discriminate H | destruct H as [H _]; discriminate H].
+Qed.
+
+Section RegAll.
+  Variable addr : N -> N.
+  Variable fixed : bool.
+  Variables maxexp debond : N.
+  Notation stp := (step addr fixed maxexp debond).
+
+  Lemma succ_inj a b : a + 1 = b + 1 -> a = b.
+  Proof. lia. Qed.
+
+  Lemma epoch_one_reg e s id : Inv_reg s -> Inv_reg (epoch_one addr debond e s id).
+  Proof.
+    intros H. unfold epoch_one. destruct (aget id (s_nodes s)) as [n|] eqn:En; [|exact H].
+    destruct ((n_exp n <? e) && (n_exp n + debond <? e)); [|exact H].
+    destruct H as (Hids & Hbe & Hnc & Hec). pose proof (Hids _ _ En) as Hid.
+    unfold Inv_reg, remove_node;
+      cbn [s_nodes s_byent s_claims s_ents with_nodes with_byent with_addr with_keymap with_claims].
+    replace (adel (n_id n) (s_nodes s)) with (adel id (s_nodes s)) by (rewrite Hid; reflexivity).
+    split; [|split; [|split]].
+    - apply ids_del. exact Hids.
+    - apply (pf_remove (fun x => x)); auto.
+    - apply (pf_remove (fun x => x + 1)); auto. exact succ_inj.
+    - apply ec_other_del; [lia|exact Hec].
+  Qed.
+
+  Lemma epoch_fold_reg e l : forall s, Inv_reg s -> Inv_reg (fold_left (epoch_one addr debond e) l s).
+  Proof.
+    induction l as [|id r IH]; intros s H; [exact H|]. cbn [fold_left]. apply IH, epoch_one_reg, H.
+  Qed.
+
+  Lemma step_reg s o : tx_op o = true -> Inv_reg s -> Inv_reg (snd (stp s o)).
+  Proof.
+    intros Htx Hinv. destruct o; try discriminate; cbn [step]; try exact Hinv.
+    - destruct (reg_entity_check txs e dsigner sig_ok); try exact Hinv.
+      destruct Hinv as (Hids & Hbe & Hnc & Hec).
+      unfold Inv_reg; cbn [snd s_nodes s_byent s_claims s_ents with_ents with_claims].
+      split; [exact Hids|split; [exact Hbe|split]].
+      + apply pf_other_add; [intros id; lia|exact Hnc].
+      + apply ec_set. exact Hec.
+    - destruct (dereg_entity_check s txs); try exact Hinv.
+      destruct Hinv as (Hids & Hbe & Hnc & Hec).
+      unfold Inv_reg; cbn [snd s_nodes s_byent s_claims s_ents with_ents with_claims].
+      split; [exact Hids|split; [exact Hbe|split]].
+      + apply pf_other_del; [intros id; lia|exact Hnc].
+      + apply ec_del. exact Hec.
+    - destruct (reg_node_check maxexp s txs n dsigners sig_ok) eqn:EC; try exact Hinv.
+      apply reg_node_ok in EC as (_ & _ & _ & _ & _ & _ & Hcur & _).
+      destruct Hinv as (Hids & Hbe & Hnc & Hec).
+      unfold Inv_reg, set_node;
+        cbn [snd s_nodes s_byent s_claims s_ents with_nodes with_byent with_addr with_keymap with_claims].
+      split; [|split; [|split]].
+      + apply ids_set. exact Hids.
+      + apply (pf_set (fun x => x)); auto. intros old Ho. apply Hcur. exact Ho.
+      + apply (pf_set (fun x => x + 1)); auto; [exact succ_inj|]. intros old Ho. apply Hcur. exact Ho.
+      + apply ec_other_add; [lia|exact Hec].
+    - cbn [snd]. unfold epoch_change. apply epoch_fold_reg. exact Hinv.
+  Qed.
+
+  Lemma run_reg ops : forall s, Inv_reg s -> forallb tx_op ops = true ->
+    Inv_reg (run addr fixed maxexp debond ops s).
+  Proof.
+    induction ops as [|o r IH]; intros s Hinv Htx; [exact Hinv|].
+    cbn [forallb] in Htx. apply andb_true_iff in Htx as [Ho Hr].
+    unfold run. cbn [fold_left]. apply IH; auto. apply step_reg; auto.
+  Qed.
+
+  Lemma reg_entity_nodes_mirror s e :
+    Inv_reg s ->
+    (has_entity_nodes s e = true <-> exists id n, aget id (s_nodes s) = Some n /\ n_ent n = e).
+  Proof.
+    intros (_ & Hbe & _). unfold has_entity_nodes. rewrite has_fst_spec. split.
+    - intros [id H]. apply Hbe in H as [n Hn]. eauto.
+    - intros [id [n Hn]]. exists id. apply Hbe. eauto.
+  Qed.
+
+  Lemma reg_claims_mirror s e c :
+    Inv_reg s ->
+    (pmem (e, c) (s_claims s) = true <->
+     (c = 0 /\ exists ent, aget e (s_ents s) = Some ent) \/
+     (exists id n, c = id + 1 /\ aget id (s_nodes s) = Some n /\ n_ent n = e)).
+  Proof.
+    intros (_ & _ & Hnc & Hec). destruct (N.eq_dec c 0) as [->|Hc].
+    - rewrite (Hec e). split; [intros H; left; auto|].
+      intros [[_ H]|[id [n [H _]]]]; [exact H|lia].
+    - replace c with (c - 1 + 1) at 1 by lia. rewrite (Hnc e (c - 1)). split.
+      + intros [n Hn]. right. exists (c - 1), n. split; [lia|exact Hn].
+      + intros [[H _]|[id [n [H Hn]]]]; [congruence|].
+        assert (id = c - 1) by lia. subst id. eauto.
+  Qed.
+
+  (* history-level statements from the initial state *)
+  Lemma byent_mirror_hist ops e :
+    forallb tx_op ops = true ->
+    (has_entity_nodes (run addr fixed maxexp debond ops st0) e = true <->
+     exists id n, aget id (s_nodes (run addr fixed maxexp debond ops st0)) = Some n /\ n_ent n = e).
+  Proof. intros H. apply reg_entity_nodes_mirror, run_reg; [exact Inv_reg_st0|exact H]. Qed.
+
+  Lemma claims_mirror_hist ops e c :
+    forallb tx_op ops = true ->
+    (pmem (e, c) (s_claims (run addr fixed maxexp debond ops st0)) = true <->
+     (c = 0 /\ exists ent, aget e (s_ents (run addr fixed maxexp debond ops st0)) = Some ent) \/
+     (exists id n, c = id + 1 /\
+                   aget id (s_nodes (run addr fixed maxexp debond ops st0)) = Some n /\ n_ent n = e)).
+  Proof. intros H. apply reg_claims_mirror, run_reg; [exact Inv_reg_st0|exact H]. Qed.
+
+  (* one step never changes the entity of a record that exists before and after *)
+  Lemma step_entity_const s o id n n' :
+    tx_op o = true -> IDS (s_nodes s) ->
+    aget id (s_nodes s) = Some n -> aget id (s_nodes (snd (stp s o))) = Some n' ->
+    n_ent n' = n_ent n.
+  Proof.
+    intros Htx Hids Hn Hn'. destruct o; try discriminate; cbn [step] in Hn'.
+    - cbn in Hn'. congruence.
+    - cbn in Hn'. congruence.
+    - destruct (reg_entity_check txs e dsigner sig_ok); cbn in Hn'; congruence.
+    - destruct (dereg_entity_check s txs); cbn in Hn'; congruence.
+    - destruct (reg_node_check maxexp s txs n0 dsigners sig_ok) eqn:EC;
+        try (cbn [snd] in Hn'; congruence).
+      cbn [snd set_node s_nodes with_claims with_nodes with_byent with_addr with_keymap] in Hn'.
+      split_in Hn' (n_id n0) id; [|congruence].
+      injection Hn' as <-. apply reg_node_ok in EC as (_ & _ & _ & _ & _ & _ & Hcur & _).
+      symmetry. apply Hcur. rewrite E. exact Hn.
+    - cbn [snd] in Hn'. unfold epoch_change in Hn'.
+      destruct (epoch_fold_nodes addr debond e (sorted_ids s) (with_epoch s e) Hids) as [_ H].
+      destruct (H id) as [A|[A _]]; rewrite A in Hn'; [cbn in Hn'; congruence|discriminate].
+  Qed.
+
+  (* the record of [id] exists after every operation of the history *)
+  Fixpoint exists_throughout (id : N) (ops : list op) (s : state) : Prop :=
+    match ops with
+    | [] => True
+    | o :: r => (exists m, aget id (s_nodes (snd (stp s o))) = Some m) /\
+                exists_throughout id r (snd (stp s o))
+    end.
+
+  Lemma entity_const_hist ops : forall s id n n',
+    forallb tx_op ops = true -> IDS (s_nodes s) ->
+    aget id (s_nodes s) = Some n -> exists_throughout id ops s ->
+    aget id (s_nodes (run addr fixed maxexp debond ops s)) = Some n' ->
+    n_ent n' = n_ent n.
+  Proof.
+    induction ops as [|o r IH]; intros s id n n' Htx Hids Hn Hex Hn'.
+    - cbn in Hn'. congruence.
+    - cbn [forallb] in Htx. apply andb_true_iff in Htx as [Ho Hr].
+      destruct Hex as [[m Hm] Hex]. unfold run in Hn'. cbn [fold_left] in Hn'.
+      rewrite (IH _ id m n' Hr (step_ids addr fixed maxexp debond s o Ho Hids) Hm Hex Hn').
+      eapply step_entity_const; eauto.
+  Qed.
+End RegAll.
+
+(* non-vacuity: an expired node still held during debonding re-registers under
+   its own entity (accepted) and under another entity that lists it (rejected) *)
+Example reregistration_examples (addr : N -> N) :
+  let pre := [TRegEntity 1 (mkEnt 1 [4]) 1 true; TRegEntity 2 (mkEnt 2 [4]) 2 true;
+              TRegNode 4 (mkNode 4 1 8 9 10 11 2) [4; 9; 8; 11; 10] true; TEpoch 3] in
+  fst (step addr true 5 2 (run addr true 5 2 pre st0) (TRegNode 4 (mkNode 4 1 8 9 10 11 7) [4; 9; 8; 11; 10] true)) = COk /\
+  fst (step addr true 5 2 (run addr true 5 2 pre st0) (TRegNode 4 (mkNode 4 2 8 9 10 11 7) [4; 9; 8; 11; 10] true)) = CNodeUpdateNotAllowed /\
+  exists_throughout addr true 5 2 4 [TRegNode 4 (mkNode 4 1 8 9 10 11 7) [4; 9; 8; 11; 10] true]
+                    (run addr true 5 2 pre st0).
+Proof.
+  cbn zeta. split; [vm_compute; reflexivity|]. split; [vm_compute; reflexivity|].
+  cbn [exists_throughout]. split; [|exact I]. eexists. vm_compute. reflexivity.
+Qed.
